@@ -42,9 +42,18 @@ def jsonable(x):
     return repr(x)[:200]
 
 
-def analyse_run(cfg, driver, props=PROPS):
+def analyse_run(cfg, driver, props=PROPS, light=False):
     import runlevel, analyse, findings
     rec = runlevel.record_run(cfg)
+    end_a = None
+    if light and rec['error'] is None and rec.get('space') is not None:
+        # (taken before the oracles run: some of them write into the live objects, e.g. the write-through test)
+        import lightrun as _lr, lib as _lib0
+        if _lr.eligible(cfg):
+            try:
+                end_a = _lr.end_state(_lib0.load(), rec['history'], rec['space'])
+            except Exception:
+                end_a = None
     out = dict(cfg=cfg, error=rec['error'], issues={}, stats={}, adv_hits=rec.get('adv_hits', 0),
                n_events=len(rec['events']))
     observer = cfg['hook'] == 'observer'
@@ -80,6 +89,25 @@ def analyse_run(cfg, driver, props=PROPS):
             i['known'] = findings.classify(p, cfg, i)
         out['issues'][p] = iss
         out['stats'][p] = st
+    # the same configuration without the recorder (no hook, no snapshots, no wrapped methods): the recorder must not change what
+    # the task leaves behind, and the light run is judged by end-state oracles of its own (see lightrun.py)
+    if light:
+        import lightrun
+        if lightrun.eligible(cfg) and rec['error'] is None and rec.get('space') is not None and end_a is not None:
+            import lib as _lib
+            try:
+                lr = lightrun.light_run(dict(cfg))
+                a = end_a
+                b = lightrun.end_state(_lib.load(), lr['history'], lr['space']) if lr['error'] is None else 'error:' + str(lr['error'])
+                out['light'] = dict(same=(a == b), recorded=a[:16], light=b[:16])
+                for p in props:
+                    if not out['issues'].get(p):
+                        li = lightrun.oracles(p, lr)
+                        for i in li:
+                            i['known'] = None
+                        out['issues'][p] = list(out['issues'].get(p, [])) + li
+            except Exception as ex:
+                out['light'] = dict(same=True, error=repr(ex)[:200])
     # machine-side monitors: truth flag at dumps (C20), logs
     if logs and logs != 'noinit':
         toks = logs.split(' ')
